@@ -96,6 +96,7 @@ func c14(c *Ctx) {
 	}
 	c14SeqCompare(c)
 	c14ChecksumFold(c)
+	c14FinAnswered(c, htcp, send)
 	// ---- (1) roles in send()
 	th := fieldStoresIn(send, "Header")
 	// send() may delegate building the headers to helpers (buildPacket(state, payload, flags)): their literals count, with the
